@@ -63,7 +63,12 @@ def conform_reducer(chk, items, name="reducer"):
     return ok, drift
 
 
-def engine_lines(tr):
+def _at(sg, r):
+    """Clock value (the adapter's clock, ms) at which the line was recorded, or -1 when the segment has no base yet."""
+    return -1 if sg["base"] is None or "t" not in r else int(sg["base"] + r["t"])
+
+
+def engine_lines(tr, free_uids=False):
     """The lines of a recorded execution that TraceEngine.tla consumes: one segment per run of the trace
     (a resumed run = Context.from_dict + workflow.run(ctx): it starts from the recorded serialised state).
     -> [{"now0", "resumed", "init", "next0", "log"}]"""
@@ -74,7 +79,8 @@ def engine_lines(tr):
         run = r.get("run", 1)
         sg = segs.get(run)
         if sg is None:
-            sg = segs[run] = {"now0": None, "resumed": run > 1, "init": {}, "next0": nsend, "log": [], "done": False, "bad": False}
+            sg = segs[run] = {"now0": None, "resumed": run > 1, "init": {}, "next0": nsend, "log": [], "done": False, "bad": False,
+                              "base": None}
             order.append(run)
         e = r["e"]
         if e == "cmd" and r["cmd"][0] == "send":
@@ -84,21 +90,25 @@ def engine_lines(tr):
         out = sg["log"]
         if e == "run_init":
             sg["init"] = r["state"]
+            if r.get("resumed"):
+                sg["resumed"] = True           # a loop inside the server started from a rebuilt context (reload / restart)
             if sg["now0"] is None:
                 sg["now0"] = r["now"]
+                sg["base"] = r["now"] - r["t"]
         elif e == "tick":
             if sg["now0"] is None:
                 sg["now0"] = r["now"]
+                sg["base"] = r["now"] - r["t"]
             if "state" not in r or "wake_abs" not in r:
                 sg["bad"] = True
                 continue
             out.append({"e": "tick", "tick": r["tick"], "now": r["now"], "state": r["state"], "pubs": r["pubs"],
                         "wake_abs": r["wake_abs"]})
         elif e == "step_end" and r["how"] != "cancelled":
-            out.append({"e": "end", "step": r["step"], "uid": r["uid"], "wid": r.get("wid", -1)})
+            out.append({"e": "end", "step": r["step"], "uid": r["uid"], "wid": r.get("wid", -1), "at": _at(sg, r)})
         elif e == "wait":
             out.append({"e": "wait", "running": r["running"], "pending": r["pending"], "timeout_ms": r["timeout_ms"],
-                        "done": r["done"]})
+                        "done": r["done"], "at": _at(sg, r)})
         elif e == "cmd":
             c = list(r["cmd"])
             if c[0] == "send":
@@ -111,7 +121,7 @@ def engine_lines(tr):
                 c = ["release_freeze", int(c[5])]
             else:
                 c = [c[0]]
-            out.append({"e": "cmd", "cmd": c})
+            out.append({"e": "cmd", "cmd": c, "at": _at(sg, r) if c[0] in ("send", "cancel") else -1})
         elif e == "outcome":
             kind = {"completed": "result"}.get(r["kind"], r["kind"])
             out.append({"e": "outcome", "kind": kind})
@@ -121,11 +131,13 @@ def engine_lines(tr):
         sg = segs[run]
         if sg["bad"] or not sg["log"] or sg["now0"] is None or (sg["resumed"] and not sg["init"]):
             continue
-        res.append({k: sg[k] for k in ("now0", "resumed", "init", "next0", "log")})
+        for ln in sg["log"]:
+            ln.setdefault("at", -1)
+        res.append(dict({k: sg[k] for k in ("now0", "resumed", "init", "next0", "log")}, free_uids=bool(free_uids)))
     return res
 
 
-def conform_engine(chk, items, name="engine"):
+def conform_engine(chk, items, name="engine", prefix="engine", quiet=False):
     """Recorded executions vs Engine.tla, line by line (TraceEngine.tla; evidence, drift is a note).
     One generated module per scenario program (Cfg/Prog are constants of Engine.tla)."""
     from concurrent.futures import ThreadPoolExecutor
@@ -144,7 +156,7 @@ def conform_engine(chk, items, name="engine"):
             trs = rng.sample(trs, cap)
         traces = []
         for (tr, sched) in trs:
-            for seg in engine_lines(tr):
+            for seg in engine_lines(tr, free_uids=label.startswith("server:")):
                 traces.append((seg, sched))
         if traces:
             jobs.append((gi, label, d, dev, traces))
@@ -189,9 +201,18 @@ def conform_engine(chk, items, name="engine"):
             else:
                 lines_ok += max(0, at - 1)
                 drift.append((label, clause, at, t["log"][at - 1] if 0 < at <= len(t["log"]) else None, sched))
-    for (label, clause, at, line, sched) in drift[:5]:
+    for (label, clause, at, line, sched) in ([] if quiet else drift[:5]):
         chk.note("conformance drift: the recorded execution is not a behaviour of Engine.tla -- %s at line %d of %s: %s (schedule %s)" % (
             clause, at, label, json.dumps(line)[:300], sched_str(sched, 12)))
+    if prefix != "engine":
+        hist = {}
+        for d_ in drift:
+            hist[d_[1]] = hist.get(d_[1], 0) + 1
+        chk.add(**{prefix + "_loops_validated": ok, prefix + "_lines_matched": lines_ok, prefix + "_loops_not_aligned": len(drift),
+                   prefix + "_resumed_loops_validated": resumed_ok})
+        if hist:
+            chk.cov[prefix + "_not_aligned_by_clause"] = hist
+        return ok, drift
     chk.add(engine_resumed_runs_validated=resumed_ok)
     chk.add(engine_traces_validated=ok, engine_lines_matched=lines_ok, engine_trace_drift=len(drift),
             engine_traces_with_unsupported_driver_action=unsupported)
@@ -239,6 +260,8 @@ def _tla_op(op):
         d.update(until=int(op.get("until", 1 << 20)), exc=EXC[op.get("exc", "ValueError")].__name__)
     elif o in ("ret", "publish"):
         d.update(ty=op["ty"])
+    elif o == "stop":
+        d.update(result=op.get("result") or "")
     return d
 
 
